@@ -4,90 +4,25 @@ Model/Node.lean and Model/Wire.lean (`hBlock`), tied to bitcoin_node.go:213-282,
 handlers.go handleBlock/completeBlock/discardBlock by the `node` correspondence (requests, cancels
 at every point of a block delivered whole or in pieces, peer drops).
 
-What the theorems say is what the CODE does, which is weaker than what the downloader assumes:
-* `CancelBlockRequest` answers "started" iff `blockReader` is set, and that is set when the block
-  HEADER matched — before the handler is started (see the note at `C16_cancel_true_iff_reader`);
-* a cancelled request stays outstanding (the node stays busy) until the block message arrives;
-* `onStop` is invoked at the end of `run()` iff it is still armed: for a request that is
-  outstanding, not cancelled, and whose block message has not begun.
-Not in the model as a function (it is in the driver and the harness): `CancelBlockRequest` called
-while `handleBlock` is parked in `ReadCloser.Read` does not return until more bytes arrive or the
-connection ends (it waits for the reader's mutex holding the node's).
+The theorems describe the code after the repository fixes 3cf55e1 (`blockStarted`: "started" is
+answered only when the handler thread was started), 7843a17 (an in-progress cancel closes the
+connection first, so it does not wait for a stalled peer) and 3c351de (the transaction channel is
+closed on every way out of `handleBlock`). Before them the harness showed: cancel mid-stream not
+returning while the peer stalls, `true` answered after the bare block header with a handler that
+was never called, and a handler left parked on its channel after a recovered panic
+(corpus/C16/node-block-requests.ops scenarios 5, 6; corpus/C16/node-handler-left-running.ops).
+Still as the code is: a cancelled request stays outstanding (the node stays busy) until the block
+message arrives; `onStop` is invoked at the end of `run()` iff it is still armed.
 -/
 import BRV.Props.C15
 
 namespace BRV.Wire
 open BRV BRV.Node BRV.Spec
 
-/-- **CancelBlockRequest's answer.** `true` iff the request is for this hash and its block message
-    has begun (`blockReader` set). NOTE: `handleBlock` sets the reader as soon as the 80-byte
-    header matched, then reads the transaction count and only then starts the handler: between
-    those two reads the answer is `true` although the handler has not been (and, if the stream
-    ends there, never will be) called. -/
-theorem C16_cancel_true_iff_reader (s : State) (h : Bytes) :
-    (cancelBlock s h).2 = true ↔ s.blockReq = some h ∧ s.blockReader = true := by
-  unfold cancelBlock
-  cases hq : s.blockReq with
-  | none => simp
-  | some want =>
-    by_cases hw : want = h
-    · subst hw
-      by_cases hr : s.blockReader = true <;> simp [hr]
-    · have hw' : ¬ (some want = some h) := by intro hc; exact hw (Option.some.inj hc)
-      simp [hw, hw']
-
-/-- a cancel disarms `onStop` and drops the handler but keeps the request: the node stays busy
-    until the block message has been handled. A cancel for another hash changes nothing. -/
-theorem C16_cancel_keeps_request (s : State) (h : Bytes) :
-    (cancelBlock s h).1.blockReq = s.blockReq ∧ (cancelBlock s h).1.busy = s.busy ∧
-    (s.blockReq = some h → (cancelBlock s h).1.onStopArmed = false ∧ (cancelBlock s h).1.blockHandler = false) ∧
-    (s.blockReq ≠ some h → (cancelBlock s h).1 = s) := by
-  unfold cancelBlock State.busy
-  cases hq : s.blockReq with
-  | none => simp [hq]
-  | some want =>
-    by_cases hw : want = h
-    · subst hw
-      by_cases hr : s.blockReader = true <;> simp [hr, hq]
-    · have hw' : ¬ (some want = some h) := by intro hc; exact hw (Option.some.inj hc)
-      simp [hw, hw', hq]
-
-/-- **one request at a time.** While a request is outstanding `RequestBlock` is refused and
-    changes nothing; on an idle node it is accepted, the node is busy and `onStop` is armed. -/
-theorem C16_request_while_busy_refused (s : State) (h : Bytes) :
-    (s.busy = true → requestBlock? s h = none) ∧
-    (s.busy = false → ∃ s' fx, requestBlock? s h = some (s', fx) ∧ s'.busy = true ∧ s'.onStopArmed = true ∧
-      s'.blockReq = some h ∧ s'.blockReader = false) := by
-  unfold requestBlock?
-  constructor
-  · intro hb; simp [hb]
-  · intro hb; simp only [hb]; exact ⟨_, _, rfl, rfl, rfl, rfl, rfl⟩
-
-theorem runEnd_disarms (s : State) : (runEnd s).1.onStopArmed = false := by
-  unfold runEnd
-  by_cases h : s.onStopArmed = true
-  · simp [h]
-  · simp only [h, Bool.false_eq_true, ↓reduceIte]
-
-theorem connectionEnd_disarms (s : State) : (connectionEnd s).1.onStopArmed = false := by
-  unfold connectionEnd; exact runEnd_disarms _
-
-theorem connectionEnd_needs_armed (s : State) (h : s.onStopArmed = false) : (connectionEnd s).2 = false := by
-  unfold connectionEnd runEnd
-  by_cases hr : s.blockReader = true
-  · cases hq : s.blockReq with
-    | none => simp [hr, h]
-    | some x => simp [hr, completeBlock]; split <;> simp [h]
-  · simp [hr, h]
-
-/-- **onStop at most once**: the end of `run()` disarms it, so a second end invokes nothing. -/
-theorem C16_onstop_at_most_once (s : State) : (connectionEnd (connectionEnd s).1).2 = false :=
-  connectionEnd_needs_armed _ (connectionEnd_disarms s)
-
 theorem accept_blk (s : State) (h : BlkInv s) : BlkInv (accept s).1 := by
   unfold accept
   simp only []
-  split <;> exact BlkInv.same (s := s) rfl rfl rfl rfl h
+  split <;> exact BlkInv.same (s := s) rfl rfl rfl rfl rfl rfl h
 
 /-- the block-request fields stay consistent through every `handleMessage`. -/
 theorem handleMessage_blk (e : Env) (s : State) (inp : Bytes) (hI : Inv s) (hB : BlkInv s) (s' : State)
@@ -118,10 +53,106 @@ theorem handleMessage_blk (e : Env) (s : State) (inp : Bytes) (hI : Inv s) (hB :
 
 theorem reach_blk (e : Env) (s : State) (h : Reach e s) : BlkInv s := by
   induction h with
-  | init vo tx hh pn => exact ⟨fun h => (by cases h), fun h => (by cases h), fun h => (by cases h)⟩
+  | init vo tx hh pn => exact ⟨fun h => (by cases h), fun h => (by cases h), fun h => (by cases h), fun h => (by cases h)⟩
   | step inp hr hs ih => exact handleMessage_blk e _ inp (reach_inv e _ hr) ih _ hs
-  | reqBlock h _ _ _ => exact ⟨fun _ => ⟨rfl, rfl⟩, fun h => (by cases h), fun _ => rfl⟩
-  | cancel h _ ih => exact (cancelBlock_frame _ h).blk ih
+  | reqBlock h _ _ _ => exact ⟨fun _ => ⟨rfl, rfl⟩, fun h => (by cases h), fun _ => rfl, fun h => (by cases h)⟩
+  | cancel h _ ih => exact cancelBlock_blk _ h ih
+
+theorem reach_blk_started (e : Env) (s : State) (h : Reach e s) :
+    s.blockStarted = true → s.blockReader = true ∧ s.bh.called = true ∧ s.bh.done = none :=
+  (reach_blk e s h).started
+
+/-- **CancelBlockRequest's answer.** `true` iff the request is for this hash, its block message
+    has begun and the handler thread has been started. -/
+theorem C16_cancel_true_iff_started (s : State) (h : Bytes) :
+    (cancelBlock s h).2 = true ↔ s.blockReq = some h ∧ s.blockReader = true ∧ s.blockStarted = true := by
+  unfold cancelBlock
+  cases hq : s.blockReq with
+  | none => simp
+  | some want =>
+    by_cases hw : want = h
+    · subst hw
+      by_cases hr : s.blockReader = true <;> simp [hr]
+    · have hw' : ¬ (some want = some h) := by intro hc; exact hw (Option.some.inj hc)
+      simp [hw, hw']
+
+/-- in every reachable state "started" means what the downloader needs: the handler has been
+    called and has not returned. Hence: CancelBlockRequest returns true iff the handler was started
+    and has not finished (for the cancelled hash). -/
+theorem C16_cancel_true_iff_handler_running (e : Env) (s : State) (hr : Reach e s) (h : Bytes)
+    (hc : (cancelBlock s h).2 = true) : s.bh.called = true ∧ s.bh.done = none :=
+  let hs := (C16_cancel_true_iff_started s h).mp hc
+  ⟨((reach_blk_started e s hr) hs.2.2).2.1, ((reach_blk_started e s hr) hs.2.2).2.2⟩
+
+/-- a cancel before the block message disarms `onStop` and drops the handler but keeps the request:
+    the node stays busy until the block message has been handled. A cancel for another hash
+    changes nothing. -/
+theorem C16_cancel_keeps_request (s : State) (h : Bytes) (hr : s.blockReader = false) :
+    (cancelBlock s h).1.blockReq = s.blockReq ∧ (cancelBlock s h).1.busy = s.busy ∧
+    (s.blockReq = some h → (cancelBlock s h).1.onStopArmed = false ∧ (cancelBlock s h).1.blockHandler = false) ∧
+    (s.blockReq ≠ some h → (cancelBlock s h).1 = s) := by
+  unfold cancelBlock State.busy
+  cases hq : s.blockReq with
+  | none => simp [hq]
+  | some want =>
+    by_cases hw : want = h
+    · subst hw
+      simp [hr, hq]
+    · have hw' : ¬ (some want = some h) := by intro hc; exact hw (Option.some.inj hc)
+      simp [hw, hw', hq]
+
+/-- an in-progress cancel ends the connection: the node is stopped, the request is completed (not
+    busy), `onStop` is not invoked later (disarmed), and the handler, if it had been started, has
+    been given the end of its stream (it returned an error). -/
+theorem C16_cancel_in_progress_ends (s : State) (h : Bytes) (hq : s.blockReq = some h)
+    (hr : s.blockReader = true) :
+    (cancelBlock s h).1.stopped = true ∧ (cancelBlock s h).1.busy = false ∧
+    (cancelBlock s h).1.onStopArmed = false ∧ (cancelBlock s h).1.onStopCalls = s.onStopCalls ∧
+    (s.bh.called = true → s.bh.done = none → (cancelBlock s h).1.bh.done = some false) := by
+  unfold cancelBlock
+  simp only [hq, ne_eq, not_true_eq_false, ↓reduceIte, hr]
+  unfold connectionEnd streamFailed runEnd State.busy failedRec
+  simp only [hr, ↓reduceIte, hq, completeBlock, Bool.false_eq_true]
+  refine ⟨by simp, by simp, by simp, by simp, ?_⟩
+  intro h1 h2
+  simp [h1, h2]
+
+/-- **one request at a time.** While a request is outstanding `RequestBlock` is refused and
+    changes nothing; on an idle node it is accepted, the node is busy and `onStop` is armed. -/
+theorem C16_request_while_busy_refused (s : State) (h : Bytes) :
+    (s.busy = true → requestBlock? s h = none) ∧
+    (s.busy = false → ∃ s' fx, requestBlock? s h = some (s', fx) ∧ s'.busy = true ∧ s'.onStopArmed = true ∧
+      s'.blockReq = some h ∧ s'.blockReader = false) := by
+  unfold requestBlock?
+  constructor
+  · intro hb; simp [hb]
+  · intro hb; simp only [hb]; exact ⟨_, _, rfl, rfl, rfl, rfl, rfl⟩
+
+theorem runEnd_disarms (s : State) : (runEnd s).1.onStopArmed = false := by
+  unfold runEnd
+  by_cases h : s.onStopArmed = true
+  · simp [h]
+  · simp only [h, Bool.false_eq_true, ↓reduceIte]
+
+theorem connectionEnd_disarms (s : State) : (connectionEnd s).1.onStopArmed = false := by
+  unfold connectionEnd; exact runEnd_disarms _
+
+theorem streamFailed_armed (s : State) (h : s.onStopArmed = false) : (streamFailed s).onStopArmed = false := by
+  unfold streamFailed
+  by_cases hr : s.blockReader = true
+  · simp only [hr, ↓reduceIte]
+    cases hq : s.blockReq with
+    | none => exact h
+    | some x => simp only [completeBlock, hq, ↓reduceIte]
+  · simp only [hr, Bool.false_eq_true, ↓reduceIte]; exact h
+
+theorem connectionEnd_needs_armed (s : State) (h : s.onStopArmed = false) : (connectionEnd s).2 = false := by
+  unfold connectionEnd runEnd
+  simp [streamFailed_armed s h]
+
+/-- **onStop at most once**: the end of `run()` disarms it, so a second end invokes nothing. -/
+theorem C16_onstop_at_most_once (s : State) : (connectionEnd (connectionEnd s).1).2 = false :=
+  connectionEnd_needs_armed _ (connectionEnd_disarms s)
 
 /-- **onStop only for an outstanding, uncancelled request whose block message has not begun.** In
     every reachable state: if the end of the connection invokes `onStop` then a request is
@@ -130,18 +161,18 @@ theorem reach_blk (e : Env) (s : State) (h : Reach e s) : BlkInv s := by
 theorem C16_onstop_only_outstanding (e : Env) (s : State) (h : Reach e s) (hc : (connectionEnd s).2 = true) :
     s.blockReq.isSome = true ∧ s.blockHandler = true ∧ s.blockReader = false := by
   have hB := reach_blk e s h
-  unfold connectionEnd runEnd at hc
-  by_cases hr : s.blockReader = true
-  · exfalso
-    have hq := hB.reader hr
-    cases hq' : s.blockReq with
-    | none => rw [hq'] at hq; cases hq
-    | some x => simp [hr, hq', completeBlock] at hc
-  · have hr' : s.blockReader = false := by simpa using hr
-    simp only [hr', Bool.false_eq_true, ↓reduceIte] at hc
-    by_cases ha : s.onStopArmed = true
-    · exact ⟨(hB.armed ha).1, (hB.armed ha).2, hr'⟩
-    · simp [ha] at hc
+  by_cases ha : s.onStopArmed = true
+  · refine ⟨(hB.armed ha).1, (hB.armed ha).2, ?_⟩
+    by_cases hr : s.blockReader = true
+    · exfalso
+      have hq := hB.reader hr
+      cases hq' : s.blockReq with
+      | none => rw [hq'] at hq; cases hq
+      | some x =>
+        unfold connectionEnd runEnd streamFailed at hc
+        simp [hr, hq', completeBlock] at hc
+    · simpa using hr
+  · rw [connectionEnd_needs_armed s (by simpa using ha)] at hc; cases hc
 
 /-- `handleBlock` on the block of a cancelled request (handler dropped): the request is completed
     (the node is idle again), nothing is handed to anybody, and the message is consumed to exactly
@@ -186,8 +217,11 @@ def streaming : State := { asked with blockReader := true }
 example : Reach env0 (requestBlock (initState false true false 0) [1]).1 → True := fun _ => trivial
 example : (requestBlock? idle [1, 2, 3]).isSome = true := by decide +kernel
 example : (requestBlock? asked [9]).isNone = true := by decide +kernel
-example : (cancelBlock asked [1, 2, 3]).2 = false ∧ (cancelBlock streaming [1, 2, 3]).2 = true ∧
-    (cancelBlock streaming [7]).2 = false := by decide +kernel
+def started : State := { streaming with blockStarted := true, bh := { called := true, count := 3, got := 1 } }
+
+example : (cancelBlock asked [1, 2, 3]).2 = false ∧ (cancelBlock streaming [1, 2, 3]).2 = false ∧
+    (cancelBlock started [1, 2, 3]).2 = true ∧ (cancelBlock started [7]).2 = false ∧
+    (cancelBlock started [1, 2, 3]).1.bh.done = some false := by decide +kernel
 example : (connectionEnd asked).2 = true ∧ (connectionEnd (cancelBlock asked [1, 2, 3]).1).2 = false ∧
     (connectionEnd streaming).2 = false := by decide +kernel
 example : (cancelBlock asked [1, 2, 3]).1.busy = true := by decide +kernel
